@@ -5,6 +5,7 @@ import (
 	"go/ast"
 	"go/token"
 	"go/types"
+	"os"
 	"regexp"
 	"strconv"
 	"strings"
@@ -634,13 +635,13 @@ func (x *Exec) applyContractSig(st *State, fr *Frame, fc *FuncContract, sig *typ
 	// the path silently and discharge everything after it. For the first applications of every callee the
 	// path is probed before and after the postconditions are assumed.
 	guard := false
-	if !x.sess.dry && len(fc.Ensures) > 0 && in != nil {
+	if !x.sess.dry && len(fc.Ensures) > 0 && in != nil && os.Getenv("GOVC_NOENSGUARD") == "" {
 		if x.ensGuard == nil {
 			x.ensGuard = map[string]int{}
 		}
 		if x.ensGuard[fc.Key] < 2 {
 			x.ensGuard[fc.Key]++
-			guard = x.sess.CheckSatT(300) == "sat"
+			guard = x.sess.ProbeStandalone(300) == "sat"
 		}
 	}
 	for _, e := range fc.Ensures {
@@ -666,10 +667,13 @@ func (x *Exec) applyContractSig(st *State, fr *Frame, fc *FuncContract, sig *typ
 		}
 		x.assume(goal)
 	}
-	if guard && x.sess.CheckSatT(300) == "unsat" {
+	if guard && x.sess.ProbeStandalone(300) == "unsat" {
 		name := fmt.Sprintf("%s/call(%s)@%s/ensures-consistent", x.fnDisplay(fr), fc.Key, x.callOrd(fr, in))
 		o := x.oblig(name, "vacuity", x.propsFor(fr, &Clause{}), pos, "the postconditions of "+fc.Key+" contradict the path at this call site (the path would end silently)")
-		x.check(st, o, "false")
+		o.Kind = "vacuity"
+		if len(o.Failures) == 0 {
+			o.Failures = append(o.Failures, &Failure{Status: "contradictory-callee-contract", Trace: append([]string(nil), st.trace...)})
+		}
 	}
 	if fc.Opts["maypanic"] == "true" {
 		st2 := st.clone()
@@ -742,7 +746,10 @@ func (x *Exec) calleeFrameWithinCaller(st, pre *State, fr *Frame, fc *FuncContra
 	o := x.oblig(name, "frame", x.fc.Props, pos, "assigns "+strings.Join(x.fc.Assigns, ", "))
 	if !fc.HasAssign {
 		o.Text += " [callee " + fc.Key + " has no frame clause]"
-		x.check(st, o, "false")
+		o.Kind = "vacuity"
+		if len(o.Failures) == 0 {
+			o.Failures = append(o.Failures, &Failure{Status: "contradictory-callee-contract", Trace: append([]string(nil), st.trace...)})
+		}
 		return
 	}
 	for _, a := range fc.Assigns {
@@ -760,7 +767,10 @@ func (x *Exec) calleeFrameWithinCaller(st, pre *State, fr *Frame, fc *FuncContra
 		}
 		if !covered {
 			o.Text += " [callee " + fc.Key + " may write " + a + "]"
-			x.check(st, o, "false")
+			o.Kind = "vacuity"
+		if len(o.Failures) == 0 {
+			o.Failures = append(o.Failures, &Failure{Status: "contradictory-callee-contract", Trace: append([]string(nil), st.trace...)})
+		}
 			return
 		}
 	}
